@@ -23,7 +23,7 @@ RULE = ("grid world in {LineWorld, GridWorld, DiscreteWorld incl. zero-extent ax
 COMPONENTS = {"real": ["ECAgent.Environments.DiscreteWorld.add_cell_component / remove_cell_component / cells / get_cell",
                        "ConstantGenerator", "LookupGenerator", "LineWorld / GridWorld constructors", "pandas.DataFrame"],
               "stub": ["callable generators and source buffers are harness-built"]}
-PROBES = ["array_source_in_another_memory_layout", "src_callable", "src_list", "src_ndarray_int", "src_ndarray_float", "src_const", "src_lookup_list",
+PROBES = ["source_function_removing_another_component_while_it_runs", "array_source_in_another_memory_layout", "src_callable", "src_list", "src_ndarray_int", "src_ndarray_float", "src_const", "src_lookup_list",
           "src_lookup_nd", "alias_after_ndarray", "alias_after_list", "zero_extent_below_populated", "readd_removed_name",
           "remove_unknown_rejected", "lookup_1d", "lookup_2d", "lookup_3d", "get_cell_compared", "generator_object_reused", "readd_live_name_overwrites", "src_lookup_reuse",
           "src_lookup_rebind", "src_const_reuse", "src_const_tuple", "src_const_subclass", "lookup_mixed_text_and_numbers",
@@ -40,7 +40,7 @@ LEVEL_NOTE = ("Trusted: the per-cell reference; the set of cells is taken from t
               "positive extents.")
 SHRINK_LISTS = ["ops"]
 KINDS = ["callable", "list", "ndarray_int", "ndarray_float", "const", "lookup_list", "lookup_nd", "lookup_reuse",
-         "lookup_rebind", "const_reuse", "const_tuple", "const_subclass", "callable_container", "callable_reads_self", "ndarray_datetime", "ndarray_object"]
+         "lookup_rebind", "const_reuse", "const_tuple", "const_subclass", "callable_container", "callable_reads_self", "ndarray_datetime", "ndarray_object", "callable_retires"]
 
 
 class Raster:
@@ -258,6 +258,21 @@ def execute(sc, ctx):
                 s_ = serial
                 gen = (lambda pos, cells_, s_=s_: enc(s_, pos))
                 vals = [enc(serial, p) for p in cells]
+            elif src == "callable_retires":
+                # the function retires another layer once it has produced its last value (env.remove_cell_component from inside
+                # the source): the new component holds the function's values, the retired one is gone, the rest is untouched
+                s_ = serial
+                victims = sorted(x for x in live if x != name)
+                victim = victims[serial % len(victims)] if victims else None
+                calls = []
+
+                def gen(pos, cells_, s_=s_, victim=victim, calls=calls):
+                    calls.append(pos)
+                    if victim is not None and len(calls) == n:
+                        env.remove_cell_component(victim)
+                    return enc(s_, pos)
+                vals = [enc(serial, p) for p in cells]
+                retired = victim
             elif src == "callable_container":
                 s_ = serial
                 gen = Raster(lambda pos, s_=s_: enc(s_, pos), n)
@@ -378,6 +393,10 @@ def execute(sc, ctx):
                 ctx.probe("readd_live_name_overwrites")
             else:
                 live[name] = {"vals": vals, "kind": src, "buf": buf}
+            if src == "callable_retires" and retired is not None:
+                del live[retired]
+                removed.add(retired)
+                ctx.probe("source_function_removing_another_component_while_it_runs")
             live[name]["f12"] = bool(src == "list" and op.get("mixed_none") and n >= 2)
             ctx.probe("src_" + src)
             if name in removed:
